@@ -148,6 +148,7 @@ class SessionManager:
         self._merkle_lookups = 0
         self._merkle_hits = 0
         self.notified_height = None
+        self._notified_reorg_count = 0
         self.notify_count = 0
         self.hsub_results = None
         self._sslc = None
@@ -850,10 +851,14 @@ class SessionManager:
 
     async def _notify_sessions(self, height, touched):
         '''Notify sessions about height changes and touched addresses.'''
-        height_changed = height != self.notified_height
+        # A reorg can end at the height it started from: the tip has changed all the same
+        reorg_count = self._reorg_count
+        height_changed = (height != self.notified_height
+                          or reorg_count != self._notified_reorg_count)
         self.notify_count += 1
         if height_changed:
             await self._refresh_hsub_results(height)
+            self._notified_reorg_count = reorg_count
         # Invalidate our history cache for touched hashXs.  Do so even if the height is
         # unchanged: a reorg can end at the height it started from.
         cache = self._history_cache
